@@ -116,7 +116,7 @@ def try_assign(chart):
     targets = list(_events(chart))
     for _, dd in chart.instrument_tracks.items():
         targets += list(dd.values())
-    targets += [chart.sync_track, chart.sync_track.bpm_events, chart.global_events_track, chart.metadata]
+    targets += [chart.sync_track, chart.global_events_track]      # "event and track objects" (not metadata / wrappers)
     for obj in targets:
         import dataclasses
         names = [f.name for f in dataclasses.fields(obj)] if dataclasses.is_dataclass(obj) else []
